@@ -19,6 +19,7 @@ func c17(r *core.Report) {
 	c17Refs(r)
 	c17Sec(r)
 	c17Order(r)
+	c17Content(r)
 }
 
 // c17Counterparts: which source struct (other specification version) a target struct literal is a
@@ -835,4 +836,48 @@ func requiredFromOwner(ff *core.FuncFacts, info *types.Info, l *c17Lit) string {
 		}
 	}
 	return "the form field's required flag is not derived from a `required` list"
+}
+
+// c17Content: the way back does not assume one media type.
+func c17Content(r *core.Report) {
+	p := r.Prog
+	info := p.Pkg("openapi2conv").TypesInfo
+	r.RunRule("C17.content", "what ToV3 spreads over the media types of `produces`/`consumes`, FromV3 finds again whatever the media type: in the FromV3* functions a lookup of an openapi3.Content map by a constant media type is only a preference — the same function also iterates over the map (or looks further entries up) so that a schema stored under another media type is not lost on the way back", 1, func() {
+		n := 0
+		for _, d := range p.AllDecls("openapi2conv") {
+			if !strings.HasPrefix(d.Name.Name, "FromV3") && !strings.HasPrefix(d.Name.Name, "fromV3") {
+				continue
+			}
+			perFn := 0
+			ast.Inspect(d.Body, func(nd ast.Node) bool {
+				ix, ok := nd.(*ast.IndexExpr)
+				if !ok {
+					return true
+				}
+				ct := core.NamedOf(info.TypeOf(ix.X))
+				if ct == nil || ct.Obj().Name() != "Content" {
+					return true
+				}
+				if _, ok := strConst(info, ix.Index); !ok {
+					return true
+				}
+				n++
+				perFn++
+				key := fmt.Sprintf("content:%s#%d", d.Name.Name, perFn)
+				// a range over the same map expression in the function
+				ranged := false
+				ast.Inspect(d.Body, func(m ast.Node) bool {
+					if rs, ok := m.(*ast.RangeStmt); ok && core.ExprStr(rs.X) == core.ExprStr(ix.X) {
+						ranged = true
+					}
+					return true
+				})
+				r.Check(ranged, key, p.Pos(ix.Pos()), "the constant media type is only the preferred entry", fmt.Sprintf("%s reads the content map only at %s: a response or body that ToV3 stored under another media type (produces/consumes) loses its schema on the way back", d.Name.Name, core.ExprStr(ix.Index)))
+				return true
+			})
+		}
+		if n == 0 {
+			r.Trivial("content:none", "-", "no constant media-type lookup in the FromV3 functions")
+		}
+	})
 }
